@@ -523,6 +523,7 @@ class Effects:
         for n in A.walk_no_nested(e):
             if isinstance(n, ast.Call):
                 out |= self._call(n, f)
+                out |= self._getattr2(n, f)
             elif isinstance(n, ast.Attribute) and isinstance(n.ctx, ast.Load):
                 out |= self._prop_load(n, f)
             elif isinstance(n, ast.Subscript) and isinstance(n.ctx, ast.Load):
@@ -530,12 +531,100 @@ class Effects:
                 out |= self._buffer_index(n, f)
             elif isinstance(n, (ast.Compare, ast.BinOp)):
                 out |= self._optional_operand(n, f)
+                if isinstance(n, ast.BinOp):
+                    out |= self._mixed_concat(n, f)
             elif isinstance(n, ast.Name) and isinstance(n.ctx, ast.Load):
                 out |= self._unresolved_name(n, f)
         for n in A.walk_no_nested(e):
             if isinstance(n, ast.Call):
                 out |= self._optional_receiver(n, f)
         return out
+
+    def _mixed_concat(self, n: ast.BinOp, f: FuncInfo) -> set[str]:
+        """TypeError of `x + "text"` (or `x + b"bytes"`) where an enclosing isinstance test says
+        that x may be of the other kind: `isinstance(x, (str, bytes))` admits both, the literal
+        fits one."""
+        if self.profile == "faults" or not isinstance(n.op, ast.Add):
+            return set()
+        lit, other = (n.right, n.left) if isinstance(n.right, ast.Constant) else (n.left, n.right)
+        if not isinstance(lit, ast.Constant) or not isinstance(lit.value, (str, bytes)):
+            return set()
+        root = other
+        while isinstance(root, ast.Subscript):
+            root = root.value
+        if not isinstance(root, ast.Name):
+            return set()
+        clash = "bytes" if isinstance(lit.value, str) else "str"
+        par = A.parents(f.node)
+        cur = n
+        while cur in par:
+            p_ = par[cur]
+            if isinstance(p_, (ast.If, ast.IfExp)) and (cur is getattr(p_, "body", None) or (
+                    isinstance(getattr(p_, "body", None), list) and any(cur is b for b in p_.body))):
+                for t in ast.walk(p_.test):
+                    if isinstance(t, ast.Call) and A.call_name(t) == "isinstance" and len(t.args) == 2 \
+                            and isinstance(t.args[0], ast.Name) and t.args[0].id == root.id:
+                        kinds = {ast.unparse(e) for e in (t.args[1].elts if isinstance(t.args[1], ast.Tuple)
+                                                          else [t.args[1]])}
+                        if clash in kinds or (clash == "bytes" and "bytearray" in kinds):
+                            self._note(f, n, {"TypeError"}, f"`{ast.unparse(n)[:50]}`: {root.id} may be "
+                                       f"{clash} here (isinstance test admits {sorted(kinds)})")
+                            return {"TypeError"}
+            cur = p_
+        return set()
+
+    def _getattr2(self, c: ast.Call, f: FuncInfo) -> set[str]:
+        """AttributeError of `getattr(obj, "name")` without a default, unless a dominating
+        `hasattr(obj, "name")` test (if / elif / conditional expression / `and` chain) or the
+        class of `self` establishes the attribute."""
+        if self.profile == "faults" or not (isinstance(c.func, ast.Name) and c.func.id == "getattr"):
+            return set()
+        if len(c.args) != 2 or c.keywords or not isinstance(c.args[1], ast.Constant) \
+                or not isinstance(c.args[1].value, str):
+            return set()
+        want, name = ast.unparse(c.args[0]), c.args[1].value
+        par = A.parents(f.node)
+
+        def conj(t):
+            if isinstance(t, ast.BoolOp) and isinstance(t.op, ast.And):
+                for v in t.values:
+                    yield from conj(v)
+            else:
+                yield t
+
+        def is_has(t):
+            return isinstance(t, ast.Call) and A.call_name(t) == "hasattr" and len(t.args) == 2 \
+                and ast.unparse(t.args[0]) == want and isinstance(t.args[1], ast.Constant) \
+                and t.args[1].value == name
+        cur = c
+        while cur in par:
+            p_ = par[cur]
+            if isinstance(p_, (ast.If, ast.While)) and any(cur is b for b in p_.body) \
+                    and any(is_has(t) for t in conj(p_.test)):
+                return set()
+            if isinstance(p_, ast.IfExp) and cur is p_.body and any(is_has(t) for t in conj(p_.test)):
+                return set()
+            if isinstance(p_, ast.BoolOp) and isinstance(p_.op, ast.And) and cur in p_.values \
+                    and any(is_has(t) for t in p_.values[:p_.values.index(cur)]):
+                return set()
+            if isinstance(p_, (ast.If, ast.While)) and any(cur is b for b in p_.orelse):
+                # else-branch of `if not hasattr(...)`
+                t = p_.test
+                if isinstance(t, ast.UnaryOp) and isinstance(t.op, ast.Not) and is_has(t.operand):
+                    return set()
+            cur = p_
+        if want == "self" and f.cls is not None:
+            for k in self.model.mro(f.cls):
+                if name in k.class_assigns or name in k.methods:
+                    return set()
+                for m in k.all_funcs:
+                    for x in A.walk_no_nested(m.node):
+                        if isinstance(x, ast.Attribute) and isinstance(x.ctx, ast.Store) \
+                                and x.attr == name and A.dotted(x.value) == "self":
+                            return set()
+        self._note(f, c, {"AttributeError"}, f"getattr({want}, {name!r}) without default and without a "
+                                             f"hasattr() test on the way")
+        return {"AttributeError"}
 
     def _unresolved_name(self, n: ast.Name, f: FuncInfo) -> set[str]:
         """NameError: a global the module's namespace does not bind (e.g. a constant that a
